@@ -56,7 +56,8 @@ def itemAddr (t : Ty) (m : Mem) (off : Nat) (idx : List Int) : Except Err Nat :=
   | .array it shp ord =>
     let av := arrView t m off
     let ai := arrInfo it shp ord
-    if (idx.zip av.shape).any (fun (i, s) => i < 0 || i ≥ (s : Int)) then .error .index
+    if idx.length > av.shape.length then .error .index          -- bound_check: more coordinates than axes
+    else if (idx.zip av.shape).any (fun (i, s) => i < 0 || i ≥ (s : Int)) then .error .index
     else
       let ix := idx.map Int.toNat
       if ai.staticType then
